@@ -7,7 +7,7 @@ import json
 from vlib import *
 from checks import c02, c03, c04, c06, c07, c08, c09, c13
 
-HOOK_ONLY = ("fe.", "vec.", "const.", "ed.table")
+HOOK_ONLY = ("fe.", "vec.", "const.", "ed.table", "ris.table")
 
 
 def master(rng, quick):
